@@ -1,9 +1,13 @@
 package harness
 
 import (
+	"bytes"
 	"context"
+	"encoding/json"
 	"fmt"
+	"io"
 	"math/rand"
+	"net/http"
 	"net/http/httptest"
 	"net/url"
 	"os"
@@ -14,6 +18,8 @@ import (
 	"testing"
 	"time"
 
+	"github.com/go-jose/go-jose/v3"
+	"github.com/hashicorp/go-retryablehttp"
 	"golang.org/x/crypto/bcrypt"
 
 	"github.com/ory/fosite"
@@ -59,6 +65,28 @@ func TestRace(t *testing.T) {
 			cfg.TokenIntrospectionHandlers, cfg.RevocationHandlers = nil, nil
 			cfg.PushedAuthorizeEndpointHandlers, cfg.DeviceEndpointHandlers = nil, nil
 		}
+		// two private_key_jwt clients whose keys live behind a jwks_uri, fetched by the real DefaultJWKSFetcherStrategy through an
+		// in-memory transport: UG's location answers, UB's answers 404 (so every authentication of UB fetches again, concurrently)
+		{
+			_, _, k2 := Keys()
+			good, _ := json.Marshal(&jose.JSONWebKeySet{Keys: []jose.JSONWebKey{{Key: &k2.PublicKey, KeyID: "kid-j", Use: "sig", Algorithm: "RS256"}}})
+			hc := retryablehttp.NewClient()
+			hc.Logger = nil
+			hc.RetryMax = 0
+			hc.HTTPClient = &http.Client{Transport: roundTrip(func(rq *http.Request) (*http.Response, error) {
+				time.Sleep(2 * time.Millisecond)
+				if strings.Contains(rq.URL.Path, "broken") {
+					return &http.Response{StatusCode: 404, Header: http.Header{}, Body: io.NopCloser(strings.NewReader("not found")), Request: rq}, nil
+				}
+				return &http.Response{StatusCode: 200, Header: http.Header{"Content-Type": {"application/json"}}, Body: io.NopCloser(bytes.NewReader(good)), Request: rq}, nil
+			})}
+			cfg.JWKSFetcherStrategy = fosite.NewDefaultJWKSFetcherStrategy(fosite.JWKSFetcherWithHTTPClient(hc))
+			cfg.TokenURL = TokenURL
+			for id, uri := range map[string]string{"UG": "https://u.example/jwks.json", "UB": "https://u.example/broken.json"} {
+				store.Clients[id] = &fosite.DefaultOpenIDConnectClient{DefaultClient: newClient(id, false), TokenEndpointAuthMethod: "private_key_jwt",
+					TokenEndpointAuthSigningAlgorithm: "RS256", JSONWebKeysURI: uri}
+			}
+		}
 		prov := compose.ComposeAllEnabled(cfg, store, rk)
 		var mu sync.Mutex
 		shared := map[string][]string{} // tokens other goroutines may also use
@@ -95,7 +123,20 @@ func TestRace(t *testing.T) {
 				var own []string
 				for i := 0; i < iters; i++ {
 					atomic.AddInt64(&ops, 1)
-					switch r.Intn(7) {
+					switch r.Intn(8) {
+					case 7: // private_key_jwt with keys behind a jwks_uri (a location that answers / one that does not)
+						_, _, k2 := Keys()
+						id := []string{"UG", "UB", "UB"}[r.Intn(3)]
+						now := time.Now()
+						a := signJWT("RS256", k2, "kid-j", map[string]interface{}{"iss": id, "sub": id, "aud": TokenURL, "exp": now.Add(time.Hour).Unix(), "iat": now.Unix(),
+							"jti": fmt.Sprintf("race-%s-%d-%d-%d", mode, seed, g, i)})
+						req := postReq("/token")
+						finishPost(req, url.Values{"grant_type": {"client_credentials"}, "scope": {"a"},
+							"client_assertion_type": {"urn:ietf:params:oauth:client-assertion-type:jwt-bearer"}, "client_assertion": {a}})
+						if ar, err := prov.NewAccessRequest(ctx, req, NewSess(Subject)); err == nil {
+							ar.GrantScope("a")
+							_, _ = prov.NewAccessResponse(ctx, ar)
+						}
 					case 0: // authorize (code or hybrid)
 						q := url.Values{"client_id": {"A"}, "response_type": {[]string{"code", "code token"}[r.Intn(2)]}, "scope": {"openid offline a"},
 							"state": {GoodState}, "nonce": {GoodNonce}, "redirect_uri": {RedirectOf["A"]}}
